@@ -126,7 +126,7 @@ PROPS["C19"] = {
 }
 
 PROPS["C18"] = {
-    "level_text": "Theorem over EVERY interleaving of Start/Inc/Done with ticks of live or stale ticker goroutines: phases in order, counts non-decreasing within a phase, nothing after a phase's final line, final line = number of Inc() calls of that phase. Observed histories of the real progressMeter (periods 1us-3ms, random delays) are validated as histories of the model; the end-to-end engine checks stdout is unchanged by --progress and the final counts equal the census.",
+    "level_text": "Theorem over EVERY interleaving of Start/Inc/Done with ticks of live or stale ticker goroutines: phases in order, counts non-decreasing within a phase, nothing after a phase's final line, final line = number of Inc() calls of that phase. Observed histories of the real progressMeter (periods 1us-3ms, random delays) are validated as histories of the model; the end-to-end engine checks stdout is unchanged by --progress and the final counts equal the census. `one_inc_per_object` over the REGENERATED statement list of sizes.ScanRepositoryUsingGraph (six Start/loop/Done brackets, one Inc() per processed object in the same straight-line block, no continue, every return in a phase an error) ties #Inc of a phase to the number of objects processed.",
     "level_note": "Partial: the real timer, scheduler and Go memory model are not modelled (the model's atomic steps are the critical sections delimited by the mutex and the atomics); trace validation is sampling.",
     "technique": "Lean 4 proof (invariant over all interleavings) + trace validation against the real meter",
     "modules": ["GitSizer.Props.C18"],
@@ -149,7 +149,7 @@ PROPS["C08"] = {
 
 PROPS["C10"] = {
     "level": "proof",
-    "level_text": "Theorems on the protocol model of a run: exit 0 iff no git invocation failed; a failing run writes no report and an error message; exit 0 carries the complete report; `config --get` exit 1 = absent. Regenerated Wait()/close/Next-site table checked by decide (each feeder is awaited only after its iterator was drained). REGENERATED control flow of mainImplementation: nothing is written to stdout before the scan succeeded, no error return after a report was written (kernel evaluation). Fault enumeration on the real binary: a fault-injecting git first on PATH (9 invocation kinds x truncation at any fraction of the output, with/without line alignment x exit statuses x SIGKILL x failure after full output), each object removed in turn, 20 s hang timeout; every observation is judged against the model's prediction (all-or-nothing).",
+    "level_text": "Theorems on the protocol model of a run: exit 0 iff no git invocation failed; a failing run writes no report and an error message; exit 0 carries the complete report; `config --get` exit 1 = absent. Regenerated Wait()/close/Next-site table checked by decide (each feeder is awaited only after its iterator was drained). REGENERATED control flow of mainImplementation: nothing is written to stdout before the scan succeeded, no error return after a report was written (kernel evaluation). Fault enumeration on the real binary: a fault-injecting git first on PATH (9 invocation kinds x truncation at any fraction of the output, with/without line alignment x exit statuses x SIGKILL x failure after full output), each object removed in turn, 20 s hang timeout; every observation is judged against the model's prediction (all-or-nothing). `scan_errors_consulted`: each of the 17 statements of the scan driver that assign err is immediately followed by `if err != nil { return <error> }` (regenerated statement list).",
     "level_note": "Partial: goroutine liveness / hang-freedom and OS pipe behaviour are not modelled (per-run timeouts only). A subprocess that truncates its output but exits 0 is outside the property (indistinguishable from a smaller repository) and is not judged. Invalid options / ROOTs are covered by the opts engine (C14).",
     "technique": "Lean 4 proof on a protocol model + fault enumeration against the real binary",
     "modules": ["GitSizer.Props.C10"],
@@ -176,7 +176,7 @@ PROPS["C14"] = {
     "assumptions": [],
 }
 PROPS["C17"] = {
-    "level_text": "Theorems over the REGENERATED call-site table: only read-only plumbing (rev-parse, config --list/--get, for-each-ref, rev-list, cat-file) is ever run, no other process is spawned, the only file-creating call is the hidden --cpuprofile; census totals are permutation-invariant. Exploration on the real binary: three runs per repository (GOMAXPROCS 1/16/4, --progress and --no-progress; table, JSON v1, JSON v2) with byte-identical stdout; SHA-1 of the entire repository directory (objects, refs, config, work tree, modes) identical before and after; a second pass of the same engine runs a -race build of the binary (both tiers) and fails on any race report.",
+    "level_text": "Theorems over the REGENERATED call-site table: only read-only plumbing (rev-parse, config --list/--get, for-each-ref, rev-list, cat-file) is ever run, no other process is spawned, the only file-creating call is the hidden --cpuprofile; census totals are permutation-invariant. Exploration on the real binary: three runs per repository (GOMAXPROCS 1/16/4, --progress and --no-progress; table, JSON v1, JSON v2) with byte-identical stdout; SHA-1 of the entire repository directory (objects, refs, config, work tree, modes) identical before and after; a second pass of the same engine runs a -race build of the binary (both tiers) and fails on any race report. Over the REGENERATED statement list of the scan driver: `feeders_only_feed` (the two feeder goroutines' statements verbatim: they never touch graph, resolver or meter — single consumer) and `shared_slices_frozen_after_fork`.",
     "level_note": "Partial: data-race freedom and schedule-independence of the real goroutines cannot be expressed in the model; they are sampled (race detector on generated repositories, incl. scans that reach no tree or no commit at all).",
     "technique": "Lean 4 proof over regenerated tables (decide) + repeated-run exploration with directory hashing",
     "modules": ["GitSizer.Props.C17"],
